@@ -17,6 +17,13 @@ fn cell(op: &str, form: &str, ty: &str, n: usize) -> String {
 /// Run every syntactic form of `ev.op` on the operands of the event and monitor each call.
 fn exec<T: Tbl>(ctx: &mut Ctx, ev: &Ev) {
     let n = ev.n;
+    // a caller error right before the event, every 16th time (obs::poison): the event is judged as usual
+    {
+        let salt = (ev.tabs.first().and_then(|t| t.first()).copied().unwrap_or(7) ^ ((ev.op.len() as u64) << 17)).wrapping_mul(0x9e37_79b9_7f4a_7c15) >> 7;
+        if salt % 16 == 0 && !ev.tabs.is_empty() {
+            vmon::obs::poison::<T>(ev.n, &ev.tabs[0], salt >> 4);
+        }
+    }
     let ma = Model::from_blocks(n, &ev.tabs[0]);
     let a: T = match realize(ctx, ev, n, &ev.tabs[0]) {
         Some(a) => a,
